@@ -34,19 +34,22 @@ theorem only_assigned (hdur : 0 < cfg.slotDur) {y : Sys} (h : Reach bn cfg y) :
 
 /-- **Not before the offset.** Every trigger carries the not-before instant
 `slotStart + offset(type)` with the offsets of `offset.go`: attester 1/3, aggregator and sync
-contribution 2/3 of the slot duration, all other types the slot start. -/
+contribution 2/3 of the slot duration, all other types the slot start. With the (alpha) feature flag
+`FetchAttOnBlockWithDelay` the attester deadline is 300 ms later (`waitForEarlyFetchOrTimeout`); it
+is never earlier than the offset. -/
 theorem not_before_offset (hdur : 0 < cfg.slotDur) {y : Sys} (h : Reach bn cfg y) :
     ∀ t ∈ y.hist,
       t.nb = t.duty.slot * cfg.slotDur +
         (if t.duty.ty = tyAttester then cfg.slotDur * 1 / 3
          else if t.duty.ty = tyAggregator ∨ t.duty.ty = tySyncContribution then cfg.slotDur * 2 / 3
-         else 0) ∧
+         else 0) +
+        (if t.duty.ty = tyAttester ∧ cfg.fetchAttOnBlockWithDelay = true then 300000000 else 0) ∧
       t.duty.slot * cfg.slotDur ≤ t.nb := by
   intro t ht
   have hnb := (reach_inv hdur h).histNb t ht
   rw [hnb]
-  unfold notBefore slotOffset fraction tyAttester tyAggregator tySyncContribution
-  refine ⟨?_, Nat.le_add_right _ _⟩
+  unfold notBefore slotOffset fraction tyAttester tyAggregator tySyncContribution delay300
+  refine ⟨?_, by omega⟩
   by_cases h2 : t.duty.ty = 2
   · simp [h2]
   · by_cases h9 : t.duty.ty = 9
